@@ -592,6 +592,9 @@ SEEDED_MORE = [
     ("C15", "C15Gen", "src/enc/brotli_bit_stream.rs", "let magic_number: [u8; 3] = if params.catable && !params.use_dictionary {", "let magic_number: [u8; 3] = if params.catable {", False),
     ("C15", "C15Gen", "src/enc/brotli_bit_stream.rs", "    for magic in magic_number.iter() {\n        BrotliWriteBits(8u8, u64::from(*magic), storage_ix, storage);", "    for m in magic_number.iter() {\n        BrotliWriteBits(8u8, u64::from(*m), storage_ix, storage);", True),
     ("C15", "C15Gen", "src/enc/brotli_bit_stream.rs", "    BrotliWriteBits(8u8, u64::from(VERSION), storage_ix, storage);\n    for sh in", "    for sh in", False),
+    # C15GenD (direct theorems)
+    ("C15", "C15GenD", "src/enc/encode.rs", "            || (ndirect_msb << distance_postfix_bits) != num_direct_distance_codes", "            || (ndirect_msb << distance_postfix_bits) == num_direct_distance_codes", False),
+    ("C15", "C15GenD", "src/enc/encode.rs", "        if params.mode == BrotliEncoderMode::BROTLI_MODE_FONT {\n            distance_postfix_bits = 1;\n            num_direct_distance_codes = 12;", "        if params.mode == BrotliEncoderMode::BROTLI_MODE_FONT {\n            distance_postfix_bits = 1;\n            num_direct_distance_codes = 13;", False),
     # C17Gen
     ("C17", "C17Gen", "src/enc/entropy_encode.rs", "            bits = (bits as i32 >> 4) as u16;", "            bits = (bits as i32 >> 3) as u16;", False),
     ("C17", "C17Gen", "src/enc/entropy_encode.rs", "    retval >>= (0usize.wrapping_sub(num_bits) & 0x3usize);", "    retval >>= (num_bits & 0x3usize);", False),
@@ -611,6 +614,7 @@ SEEDED_MORE = [
     ("C16", "C16Gen", "src/concat/mod.rs", "if self.num_bytes_read == 4 && (127 & self.bytes_so_far[0]) != 17 {", "if self.num_bytes_read == 4 && (127 & self.bytes_so_far[0]) != 16 {", False),
     ("C16", "C16Gen", "src/concat/mod.rs", "            last_bytes = [17u8, log_window_size | 64 | 128];", "            last_bytes = [17u8, log_window_size | 64];", False),
     ("C16", "C16Gen", "src/concat/mod.rs", "        if self.num_bytes_read == 4 && (127 & self.bytes_so_far[0]) != 17 {\n            return true;\n        }\n        self.num_bytes_read == 5", "        let first = self.bytes_so_far[0];\n        if self.num_bytes_read == 4 && (127 & first) != 17 {\n            return true;\n        }\n        self.num_bytes_read == 5", True),
+    ("C16", "C16Gen", "src/concat/mod.rs", "        last_bytes |= 3 << bit_end;", "        last_bytes |= 1 << bit_end;", False),
     # C18vGen
     ("C18v", "C18vGen", "src/enc/command.rs", "let copylen_code_delta = (copylen_code as i32 - copylen as i32) as i8;", "let copylen_code_delta = (copylen as i32 - copylen_code as i32) as i8;", False),
     ("C18v", "C18vGen", "src/enc/command.rs", "            (self.dist_prefix_ & 0x3ff) == 0,\n            &mut self.cmd_prefix_,", "            (self.dist_prefix_ & 0x3ff) != 0,\n            &mut self.cmd_prefix_,", False),
